@@ -173,6 +173,15 @@ func boundedReflectCBOR() (ok bool) {
 			return false
 		}
 	}
+	// union of outer and embedded fields, also when the embedded interface holds an all-zero struct by value
+	for _, inner := range []HIface{HInner2{}, HInner2{D: pu(1)}, &HInner2{}} {
+		b, err := SerializeStructToCBOR(em, &hWithIface{HIface: inner, X: pi(3)})
+		var m map[int]cbor.RawMessage
+		if err != nil || dm.Unmarshal(b, &m) != nil || len(m) != 2 || m[4] == nil || m[10] == nil {
+			fmt.Printf("bounded: embedded interface %#v: expected keys 4 and 10, got %x (%v)\n", inner, b, err)
+			return false
+		}
+	}
 	// the all-empty struct
 	type empty struct {
 		P *int `cbor:"1,keyasint,omitempty" json:"p,omitempty"`
@@ -277,6 +286,14 @@ func boundedReflectJSON() (ok bool) {
 				fmt.Printf("bounded: flat struct differs from json.Marshal: %s vs %s\n", b, p)
 				return false
 			}
+		}
+	}
+	for _, inner := range []HIface{HInner2{}, HInner2{D: pu(1)}, &HInner2{}} {
+		b, err := SerializeStructToJSON(&hWithIface{HIface: inner, X: pi(3)})
+		var m map[string]json.RawMessage
+		if err != nil || json.Unmarshal(b, &m) != nil || len(m) != 2 || m["d"] == nil || m["x"] == nil {
+			fmt.Printf("bounded: embedded interface %#v: expected members d and x, got %s (%v)\n", inner, b, err)
+			return false
 		}
 	}
 	if PopulateStructFromJSON([]byte(`{}`), &hFlat{}) == nil {
